@@ -117,6 +117,59 @@ func mentionsLen(v ssa.Value, s ssa.Value, depth int) bool {
 }
 
 func (c *Ctx) lenFactsAt(eng *ranges.Engine, fn *ssa.Function, s ssa.Value, b *ssa.BasicBlock) lenFact {
+	return c.lenFactsAtDepth(eng, fn, s, b, 0)
+}
+
+// lenMinOnOutcome: the lower bound on len(param i) that holds whenever helper sc returns with
+// result ridx equal to `want` (bool value / nil error), from the tests dominating those returns.
+func (c *Ctx) lenMinOnOutcome(eng *ranges.Engine, sc *ssa.Function, i, ridx int, want bool, depth int) (min int64, parsed, mentions bool) {
+	if depth > 2 || i >= len(sc.Params) {
+		return 0, true, false
+	}
+	q := sc.Params[i]
+	best := int64(-1)
+	parsed = true
+	for _, b := range sc.Blocks {
+		if len(b.Instrs) == 0 {
+			continue
+		}
+		ret, ok := b.Instrs[len(b.Instrs)-1].(*ssa.Return)
+		if !ok || ridx >= len(ret.Results) {
+			continue
+		}
+		rv := ret.Results[ridx]
+		if k, ok := rv.(*ssa.Const); ok {
+			if rv.Type().String() == "error" {
+				if k.IsNil() != want {
+					continue
+				}
+			} else if k.Value != nil && (k.Value.String() == "true") != want {
+				continue
+			}
+		} else if rv.Type().String() == "error" && want {
+			// a non-constant error value on the success outcome: only if it may be nil
+			if definitelyNonNilError(ret, ridx) {
+				continue
+			}
+		}
+		f := c.lenFactsAtDepth(eng, sc, q, b, depth+1)
+		if f.anyCheck {
+			mentions = true
+		}
+		if f.unparsed {
+			parsed = false
+		}
+		if best < 0 || f.min < best {
+			best = f.min
+		}
+	}
+	if best < 0 {
+		best = 0
+	}
+	return best, parsed, mentions
+}
+
+func (c *Ctx) lenFactsAtDepth(eng *ranges.Engine, fn *ssa.Function, s ssa.Value, b *ssa.BasicBlock, depth int) lenFact {
 	var f lenFact
 	if m, known := c.lenLowerOfValue(eng, fn, s, b, 0); known {
 		f.min = m
@@ -130,11 +183,32 @@ func (c *Ctx) lenFactsAt(eng *ranges.Engine, fn *ssa.Function, s ssa.Value, b *s
 		if len(cb.Preds) != 1 || cb.Preds[0] != d || len(d.Succs) != 2 {
 			continue
 		}
+		onTrue := d.Succs[0] == cb
+		// the length is tested inside a checking helper: if !isFrameHeader(data) { return err }
+		if call, ridx, wantOnTrue, ok := ranges.OutcomeOfCond(ifCond(d)); ok {
+			if sc := call.Call.StaticCallee(); sc != nil && sc.Blocks != nil && !call.Call.IsInvoke() && len(call.Call.Args) == len(sc.Params) {
+				for i, a := range call.Call.Args {
+					if !sameSlice(a, s) {
+						continue
+					}
+					m, parsed, mentions := c.lenMinOnOutcome(eng, sc, i, ridx, wantOnTrue == onTrue, depth)
+					if mentions {
+						f.anyCheck = true
+					}
+					if !parsed {
+						f.unparsed = true
+					}
+					if m > f.min {
+						f.min = m
+					}
+				}
+			}
+			continue
+		}
 		cond, ok := ifCond(d).(*ssa.BinOp)
 		if !ok {
 			continue
 		}
-		onTrue := d.Succs[0] == cb
 		op := cond.Op
 		x, y := cond.X, cond.Y
 		mentions := mentionsLen(x, s, 0) || mentionsLen(y, s, 0)
@@ -408,6 +482,14 @@ func (c *Ctx) unrelatedBounds(eng *ranges.Engine, fn *ssa.Function, x *ssa.Slice
 	for _, a := range la {
 		if hasLeaf(lb, a) {
 			return report.Discharged, "high bound computed from the low bound"
+		}
+	}
+	// a bound produced by a helper (end, ok := p.dataEnd(start, n)) may have been related to the
+	// other one inside it: only bounds built here, from parameters and loads, are the witness shape
+	for _, l := range append(append([]ssa.Value{}, la...), lb...) {
+		switch l.(type) {
+		case *ssa.Call, *ssa.Extract:
+			return report.Discharged, "a bound is the result of a call: not decided"
 		}
 	}
 	for cb := b; cb != nil; cb = cb.Idom() {
